@@ -19,7 +19,7 @@ func init() {
 	register(&Family{
 		Name:    "graceful",
 		Run:     runGraceful,
-		Oracles: []func(*World, *History){OracleHungRoles("C10", "bystander"), OracleC10, OracleC01, OracleLeak},
+		Oracles: []func(*World, *History){OracleHungRoles("C10", "bystander"), OracleC10, OracleStopCalls, OracleC01, OracleLeak},
 		Nontrivial: func(w *World, h *History) bool {
 			return h.Derived["probe.graceful_with_inflight"] > 0
 		},
@@ -89,6 +89,15 @@ func runGraceful(w *World, rs *RunSpec) {
 	}
 	w.Desc["disturbers"] = []string{"graceful-shutdown"}
 
+	// multistop: further GracefulStop / Stop calls overlap the first one
+	// (drawn only when asked for, so that older replays keep their meaning)
+	extraGS, nStop := 0, 1
+	if rs.P("multistop", 0) == 1 && reverse {
+		extraGS = c.Intn(3, "extrags") // 0 none, 1 right after the first took effect, 2 a little later
+		nStop = 1 + c.Intn(3, "nstop")
+		w.Desc["extra_graceful_stop"] = extraGS
+		w.Desc["concurrent_stop_calls"] = nStop
+	}
 	shutdownDone := false
 	var lcs *callerSet
 	trigger := k
@@ -103,13 +112,22 @@ func runGraceful(w *World, rs *RunSpec) {
 		simrt.Emit(simrt.Event{Kind: EvCheckpoint, S: "shutdown-begin"})
 		if reverse {
 			simrt.Count(CntFaultGracefulStop, 1)
-			simrt.Go("graceful", func() {
-				t.RevServer.GracefulStop()
-				simrt.Emit(simrt.Event{Kind: EvTunnel, S: "graceful-stop-returned", A: int64(t.Idx)})
-			})
+			simrt.Go("graceful", func() { callGracefulStop(t, 0) })
 			// GracefulStop does not return until the server has stopped; once the
 			// system is idle it has taken effect
 			simrt.AwaitIdle()
+			if extraGS > 0 {
+				d := time.Duration(0)
+				if extraGS == 2 {
+					d = nap()
+				}
+				simrt.Go("graceful2", func() {
+					if d > 0 {
+						simrt.Sleep(d)
+					}
+					callGracefulStop(t, 1)
+				})
+			}
 		} else {
 			simrt.Count(CntFaultInitiateShutdown, 1)
 			t.Handler.InitiateShutdown()
@@ -151,9 +169,7 @@ func runGraceful(w *World, rs *RunSpec) {
 	if reverse && k >= 0 {
 		// Stop: returns only after every Serve call has returned
 		simrt.Count(CntFaultStop, 1)
-		simrt.Emit(simrt.Event{Kind: EvCheckpoint, S: "stop-invoked"})
-		t.RevServer.Stop()
-		simrt.Emit(simrt.Event{Kind: EvCheckpoint, S: "stop-returned"})
+		callStops(t, nStop)
 	}
 	simrt.Emit(simrt.Event{Kind: EvCounter, S: "enum.points", A: int64(points)})
 	w.FullShutdown()
@@ -170,11 +186,11 @@ func OracleC10(w *World, h *History) {
 			effect = e.Seq
 		case e.Kind == EvCheckpoint && e.S == "drained" && drained == 0:
 			drained = e.Seq
-		case e.Kind == EvCheckpoint && e.S == "stop-invoked":
+		case e.Kind == EvCheckpoint && e.S == "stop-invoked" && e.A == 0:
 			stopInv = e.Seq
-		case e.Kind == EvCheckpoint && e.S == "stop-returned":
+		case e.Kind == EvCheckpoint && e.S == "stop-returned" && e.A == 0:
 			stopRet = e.Seq
-		case e.Kind == EvTunnel && e.S == "graceful-stop-returned":
+		case e.Kind == EvTunnel && e.S == "graceful-stop-returned" && e.B == 0:
 			gsRet = e.Seq
 		}
 	}
@@ -271,23 +287,7 @@ func OracleC10(w *World, h *History) {
 				det("state", idle), drained)
 		}
 	}
-	// Stop returns only after every Serve call has returned
-	if stopRet != 0 {
-		for _, e := range h.Tunnel {
-			if e.S == "serve-return" && e.Seq > stopRet {
-				w.AddViolation("C10", "stop-returned-early", fmt.Sprintf("Stop returned at #%d but Serve of tunnel %d returned only at #%d", stopRet, e.A, e.Seq), det(), stopRet)
-			}
-		}
-		for _, id := range h.RPCIDs {
-			for _, hr := range h.RPCs[id].Handlers {
-				if hr.Start < stopRet && (hr.End == 0 || hr.End > stopRet) && !hr.CtxDoneAtEnd && hr.End != 0 {
-					w.AddViolation("C10", "stop-returned-early", fmt.Sprintf("Stop returned at #%d but the handler of rpc %d was still running with a live context", stopRet, id), det(), stopRet)
-				}
-			}
-		}
-	} else if stopInv != 0 {
-		w.AddViolation("C10", "stop-no-return", fmt.Sprintf("Stop invoked at #%d never returned", stopInv), det(), stopInv)
-	}
+	_, _ = stopInv, stopRet // every Stop / GracefulStop call is judged by OracleStopCalls
 }
 
 // tunnelGoneBefore reports whether the tunnel had ended before seq.
@@ -298,4 +298,108 @@ func tunnelGoneBefore(h *History, t *Tunnel, seq int64) bool {
 		}
 	}
 	return false
+}
+
+// callGracefulStop runs one GracefulStop call and records its interval.
+func callGracefulStop(t *Tunnel, idx int) {
+	simrt.Emit(simrt.Event{Kind: EvTunnel, S: "graceful-stop-invoked", A: int64(t.Idx), B: int64(idx)})
+	t.RevServer.GracefulStop()
+	simrt.Emit(simrt.Event{Kind: EvTunnel, S: "graceful-stop-returned", A: int64(t.Idx), B: int64(idx)})
+}
+
+// callStops runs n overlapping Stop calls (the first on the calling goroutine)
+// and returns when all of them have returned.
+func callStops(t *Tunnel, n int) {
+	one := func(idx int) {
+		simrt.Emit(simrt.Event{Kind: EvCheckpoint, S: "stop-invoked", A: int64(idx)})
+		t.RevServer.Stop()
+		simrt.Emit(simrt.Event{Kind: EvCheckpoint, S: "stop-returned", A: int64(idx)})
+	}
+	var dones []chan struct{}
+	for i := 1; i < n; i++ {
+		i := i
+		d := make(chan struct{})
+		dones = append(dones, d)
+		simrt.Go("stop", func() {
+			one(i)
+			close(d)
+		})
+	}
+	simrt.Yield(simrt.ClassApp)
+	one(0)
+	for _, d := range dones {
+		simrt.Recv(d)
+	}
+}
+
+// OracleStopCalls judges every single Stop / GracefulStop call of a run: Stop
+// returns only after every Serve call has returned and every handler has ended
+// or been cancelled; GracefulStop (unless Stop was called meanwhile) returns
+// only after the RPCs in flight when it was called have finished.
+func OracleStopCalls(w *World, h *History) {
+	type call struct{ inv, ret int64 }
+	stops, gss := map[int64]*call{}, map[int64]*call{}
+	get := func(m map[int64]*call, k int64) *call {
+		if m[k] == nil {
+			m[k] = &call{}
+		}
+		return m[k]
+	}
+	var firstStopInv int64
+	for _, e := range h.Evs {
+		switch {
+		case e.Kind == EvCheckpoint && e.S == "stop-invoked":
+			get(stops, e.A).inv = e.Seq
+			if firstStopInv == 0 {
+				firstStopInv = e.Seq
+			}
+		case e.Kind == EvCheckpoint && e.S == "stop-returned":
+			get(stops, e.A).ret = e.Seq
+		case e.Kind == EvTunnel && e.S == "graceful-stop-invoked":
+			get(gss, e.B).inv = e.Seq
+		case e.Kind == EvTunnel && e.S == "graceful-stop-returned":
+			get(gss, e.B).ret = e.Seq
+		}
+	}
+	hol := h.holWitness
+	if hol == "" {
+		hol = "no"
+	}
+	for idx, c := range stops {
+		det := map[string]string{"hol": hol, "call": fmt.Sprint(idx), "calls": fmt.Sprint(len(stops))}
+		if c.ret == 0 {
+			if c.inv != 0 {
+				w.AddViolation("C10", "stop-no-return", fmt.Sprintf("Stop call %d invoked at #%d never returned", idx, c.inv), det, c.inv)
+			}
+			continue
+		}
+		for _, e := range h.Tunnel {
+			if e.S == "serve-return" && e.B != 0 && e.Seq > c.ret {
+				w.AddViolation("C10", "stop-returned-early", fmt.Sprintf("Stop call %d of %d returned at #%d but Serve of tunnel %d returned only at #%d", idx, len(stops), c.ret, e.A, e.Seq), det, c.ret)
+			}
+		}
+		for _, id := range h.RPCIDs {
+			for _, hr := range h.RPCs[id].Handlers {
+				if hr.Start < c.ret && hr.End > c.ret && !hr.CtxDoneAtEnd {
+					w.AddViolation("C10", "stop-returned-early", fmt.Sprintf("Stop call %d of %d returned at #%d but the handler of rpc %d was still running with a live context", idx, len(stops), c.ret, id), det, c.ret)
+				}
+			}
+		}
+	}
+	for idx, c := range gss {
+		if c.ret == 0 || c.inv == 0 {
+			continue // not returning: judged against the drain checkpoint by OracleC10
+		}
+		if firstStopInv != 0 && firstStopInv < c.ret {
+			continue // Stop took over
+		}
+		det := map[string]string{"hol": hol, "call": fmt.Sprint(idx), "calls": fmt.Sprint(len(gss))}
+		for _, id := range h.RPCIDs {
+			for _, hr := range h.RPCs[id].Handlers {
+				if hr.Start < c.inv && (hr.End == 0 || hr.End > c.ret) {
+					w.AddViolation("C10", "gracefulstop-returned-early", fmt.Sprintf("GracefulStop call %d of %d (invoked at #%d) returned at #%d while the handler of rpc %d, in flight since #%d, was still running", idx, len(gss), c.inv, c.ret, id, hr.Start), det, c.ret)
+				}
+			}
+		}
+	}
 }
